@@ -14,7 +14,7 @@ implementation.
 import itertools, json, os, re, shutil, socket
 import vlib, session
 
-REQUIRED = ['gen_constants', 'rcpt_outcome_spec', 'first_hard_decision_wins', 'no_hard_decision', 'setting_inheritance',
+REQUIRED = ['whitelistauth_checked_first', 'gen_constants', 'rcpt_outcome_spec', 'first_hard_decision_wins', 'no_hard_decision', 'setting_inheritance',
             'setting_inheritance_raw', 'checkconfig_spec', 'getfile_level_order', 'settings_read_from_loaded_config',
             'outcome_documented', 'no_crash']
 
@@ -336,6 +336,8 @@ def evaluate(ctx, binary, name, lines, known_class=None):
             continue
         if impl != model:
             dis.append((line, impl, model))
+        if line in WL_EXPECT and impl.startswith('ok ') and not bytes.fromhex(impl.split()[2] if impl.split()[2] != '-' else '').startswith(b'250'):
+            fails.append((line, impl, 'fails whitelistauth-as-documented: "if the user is authenticated ... the mail is accepted and no other filters will be checked" (filterconf(5)), yet another filter decided'))
         if not pred.startswith('holds'):
             fails.append((line, impl, pred))
     ctx.cov['distinct_nontrivial'] += len(seen)
@@ -472,6 +474,51 @@ def put_switch_settings(c, rng):
             if rng.random() < 0.45:
                 line = fmt(k, rng.choice(VALUES[1:] + ['k', 'k']))
                 c.setting(l, line)
+
+
+WL_EXPECT = set()     # cases in which the documentation promises acceptance (filterconf(5): whitelistauth)
+
+
+def gen_whitelist_order(ctx):
+    """whitelistauth against every denying filter: an authenticated client with whitelistauth in force passes
+    whatever a later filter would say; without authentication, or with whitelistauth=-1 at a nearer level,
+    the filter decides"""
+    rng = ctx.rng
+    out = []
+    deny = ['nomail', 'nomail-code', 'badmailfrom', 'ipbl', 'badhelo', 'spacebug', 'usersize']
+    for kind in ('dir', 'qmail'):
+        lv = ['U', 'D', 'G'] if kind == 'dir' else ['D', 'G']
+        for d in deny:
+            for auth in (0, 1):
+                for wl in itertools.product(['absent', 'k', 'k=-1'], repeat=len(lv)):
+                    c = Case('wl-%s' % d, kind)
+                    c.set(auth=auth, ehlo=1)
+                    L = rng.choice(lv)
+                    if d == 'nomail':
+                        c.file(L, 'nomail', b'go away\n')
+                    elif d == 'nomail-code':
+                        c.file(L, 'nomail', b'450 4.2.1 later please\n')
+                    elif d == 'badmailfrom':
+                        c.file(L, 'badmailfrom', b'pass.example\n')
+                    elif d == 'ipbl':
+                        c.file(L, 'ipbl', iprec(IP4))
+                    elif d == 'badhelo':
+                        c.file(L, 'badhelo', HELOS[0] + b'\n')
+                    elif d == 'spacebug':
+                        c.setting(L, 'smtp_space_bug=255'); c.set(rspace=1)
+                    else:
+                        c.setting(L, 'usersize=1'); c.set(size=2)
+                    for l, v in zip(lv, wl):
+                        line = fmt('whitelistauth', v)
+                        if line:
+                            c.setting(l, line)
+                    line = c.finish()
+                    out.append(line)
+                    eff = next((v for v in wl if v != 'absent'), 'absent')
+                    if auth == 1 and eff == 'k':
+                        WL_EXPECT.add(line)
+                    ctx.count('gen:whitelist-order')
+    return out
 
 
 def listfile(rng, entries, noise=True):
@@ -728,6 +775,7 @@ def run(ctx):
         if lines:
             evaluate(ctx, binary, 'corpus', lines)
         evaluate(ctx, binary, 'settings', gen_settings(ctx, full))
+        evaluate(ctx, binary, 'whitelist-order', gen_whitelist_order(ctx))
         evaluate(ctx, binary, 'setting-pairs', gen_pairs(ctx, 6000 if full else 400))
         evaluate(ctx, binary, 'file-levels', gen_files(ctx, full))
         evaluate(ctx, binary, 'filterconf-syntax', gen_syntax(ctx, 4000 if full else 300))
